@@ -184,7 +184,7 @@ class JointRecurrenceNetwork(JointRecurrencePlot, Network):
         #  Set diagonal of JR to zero to avoid self-loops in the joint
         #  recurrence network
         A = self.JR.copy()
-        A.flat[::self.N+1] = 0
+        A.flat[::A.shape[0]+1] = 0
 
         #  Create a Network object interpreting the recurrence matrix as the
         #  graph adjacency matrix. Joint recurrence networks are undirected by
@@ -207,7 +207,7 @@ class JointRecurrenceNetwork(JointRecurrencePlot, Network):
         #  Set diagonal of JR to zero to avoid self-loops in the joint
         #  recurrence network
         A = self.JR.copy()
-        A.flat[::self.N+1] = 0
+        A.flat[::A.shape[0]+1] = 0
 
         #  Create a Network object interpreting the recurrence matrix as the
         #  graph adjacency matrix. Joint recurrence networks are undirected by
@@ -230,7 +230,7 @@ class JointRecurrenceNetwork(JointRecurrencePlot, Network):
         #  Set diagonal of JR to zero to avoid self-loops in the joint
         #  recurrence network
         A = self.JR.copy()
-        A.flat[::self.N+1] = 0
+        A.flat[::A.shape[0]+1] = 0
 
         #  Create a Network object interpreting the recurrence matrix as the
         #  graph adjacency matrix. Joint recurrence networks are undirected by
